@@ -560,7 +560,8 @@ func urlCase(r *ev.Run, e *env, i int) {
 		g := rng.For(r.Seed, "c19/url", i)
 		scheme := rng.Pick(g, []string{"file", "FILE", "File", "fIlE"})
 		host := rng.Pick(g, []string{"", "", "localhost", "localhost", "LOCALHOST", "example.com", "localhost.", "127.0.0.1", "local", "localhostx"})
-		user := rng.Pick(g, []string{"", "", "", "u@", "u:p@", "@"})
+		// user info: none; a name; a name and a password; a password without a name; the bare marker
+		user := rng.Pick(g, []string{"", "", "", "u@", "u:p@", "@", ":secret@", ":p%40ss@"})
 		port := rng.Pick(g, []string{"", "", "", ":80", ":0", ":"})
 		query := rng.Pick(g, []string{"", "", "", "?a=1", "?x", "?"})
 		frag := rng.Pick(g, []string{"", "", "", "#f", "#"})
